@@ -52,8 +52,12 @@ class C20(Prop):
             base = {"opts": opts, "version": v, "tree": tree, "plen": 2 * B, "plen_arg": 15 if g % 2 else 32768,
                     "group": "c20-%d" % g, "clauses": ["C20.fields", "C20.same"],
                     "padneeded": not tree.get("single"), "n_announce": 1 + g % 2}
+            if g % 3 == 0:          # values that look like booleans are still text
+                base["comment_val"] = ("true", "false", "True")[(g // 3) % 3]
+                base["source_val"] = ("false", "true")[(g // 3) % 2]
             out.append(dict(base, route="kw"))
             out.append(dict(base, route="config", announce_key=("announce", "tracker")[g % 2]))
+            out.append(dict(base, route="config", explicit_false=True))     # switches spelled out as false
             present = [f for f in FLAGS if f in S] + ["PROG"]
             shapes = []
             shapes.append(["PATH"] + present)                    # path first
@@ -79,7 +83,8 @@ class C20(Prop):
     def nontrivial(self, case):
         if case["route"] == "cli" and case["shape"] and case["shape"][0] == "PATH":
             return None
-        return (case["group"], case["route"], tuple(case.get("shape", [])), case.get("announce_key"))
+        return (case["group"], case["route"], tuple(case.get("shape", [])), case.get("announce_key"),
+                case.get("explicit_false"))
 
     def signature(self, case, rec, clause):
         return "%s/%s" % (clause, (case or {}).get("route", "?"))
